@@ -70,7 +70,7 @@ type World struct {
 	Link      func() (out, in simnet.LinkCfg)
 	Torrents  []*tor.Torrent
 	Peers     []*RefPeer
-	Epoch     int // number of quiescent points observed so far
+	Epoch     int                     // number of quiescent points observed so far
 	Holdable  map[string]map[int]bool // per info-hash: pieces the system can possibly hold
 	ephemeral int
 	cancel    []context.CancelFunc
